@@ -119,6 +119,18 @@ CHECKS["C09"] = dict(
    note=TB + "The 4-slot read cache is treated as transparent for a deterministic get_page (observed, not proved here); custom methods, error messages, "
         "re-entrant get_page callbacks and unaligned table reads are outside the model.",
    technique="Lean 4 proof (op = first-match composition; exactly-once; bounded nesting) + differential correspondence", design="§6 C09")
+CHECKS["C01"] = dict(
+   text="Partial by design: proved for the lookup logic, observed for the rest. Lean proofs: the LKCD run-length decoder is total (never reads past src, "
+        "never writes past dst) and inverts the encoder; ELF page semantics (missing vs present, exact bytes with zero-fill of memsz>filesz and of page "
+        "straddling, both address spaces, both zero_excluded settings) for any lookup history; diskdump descriptor position = descoff + 24*rank(p) (reusing "
+        "the C07 region theorems); SADUMP data position incl. the offset inside a run; the LKCD descriptor search as an invariant over any read history. "
+        "Tie and property evaluation: generated ELF (32/64-bit, both byte orders, unaligned/file-less segments), diskdump/KDUMP (raw, zlib, stored zlib, "
+        "snappy, zstd, LZO-flag, excluded pages, 32/64-bit headers), LKCD (raw/RLE/gzip, unordered, duplicate, gapped, far-off frames), SADUMP and s390 "
+        "dumps; every frame, unaligned page-crossing ranges, range ends, both zero_excluded settings and the five geometry attributes are compared with "
+        "the image and layout the generator encoded (status, length, CRC-32); the model answers symbolically where each page's bytes come from.",
+   note=TB + "Header parsing, the geometry attributes, s390, split-file selection, the real zlib/snappy/zstd decompressors and the LKCD three-level block "
+        "table (abstracted to a finite map) are checked differentially only; tools/dumpgen.py writers are trusted generators.",
+   technique="Lean 4 proof (lookup/zero-fill/RLE) + exhaustive differential reads of generated dumps", design="§6 C01")
 NOT_YET = {}
 
 def main():
